@@ -136,6 +136,12 @@ class C08(CheckBase):
         if idx % 4 == 3:
             # the library closes on its own verdict (name, version, password, key, framing); other causes fall around it
             make_rejecting(base, rng)
+        if idx % 9 == 4:
+            # an application bug: the stop callback raises (a plain function where a coroutine function is expected). Whatever
+            # becomes of the exception, the connection's resources are gone by then
+            for st in base["actors"][0]["steps"]:
+                if st["do"] in ("connect", "start"):
+                    st["stop_kind"] = "plain_raises"
         yield base
         T = run_scenario(base).turns
         causes = SWEEP_CAUSES if tier == "thorough" else rng.sample(SWEEP_CAUSES, 6)
